@@ -59,6 +59,7 @@ type retPoint struct {
 type frameLoc struct {
 	obj, lo, hi string
 	typ         types.Type // static type of the region's object (struct for p.*, element type for s[*])
+	elems       bool       // a slice's element region (s[*], s[*cap])
 }
 
 // Exec symbolically executes one SSA function (the root under contract, or an
